@@ -115,7 +115,7 @@ def gen_jobs(ctx, rng):
     quick = ctx.tier == "quick"
     jobs = []
     nras = 14 if quick else 35   # thorough: measured 5.5 CPU-h with 70 rasters (every chunking of each)
-    for ri in range(nras):
+    for ri in range(nras + 2):
         H, W = rng.choice([(2, 3), (3, 3), (3, 4), (4, 4), (4, 5), (2, 6)])
         # zone alphabets are cycled too; the last one holds -inf / +inf zone cells (never a zone: a block task that
         # maps cells to zones by position instead of by value files them under the first / last zone)
@@ -136,6 +136,14 @@ def gen_jobs(ctx, rng):
         vdtype = "float64" if vfloat else rng.choice(["int32", "float64", "float32"])
         present = sorted({v for row in zones for v in row if not isinstance(v, str)})
         nodata = rng.choice([None, None, 0, 2, 3])
+        if ri >= nras:
+            # two extra rasters, always: nodata_values = 0 with zero cells inside the zones (a falsy-guard `if nodata:`
+            # on one backend shows only there).  Appended after the seeded rasters so that their streams are unchanged.
+            nodata = 0
+            values = [[rng.choice([0, 0, 1, 2, 3]) for _ in range(W)] for _ in range(H)]
+            values[0][0] = 0
+            vfloat = False
+            vdtype = ["int32", "float64"][ri - nras]
         zlayout = rng.choice(["C", "C", "F", "T", "S", "R"])
         vlayout = rng.choice(["C", "C", "F", "T", "S", "R"])
         rowsC, colsC = compositions(H), compositions(W)
